@@ -107,6 +107,7 @@ void cmb_resourceguard_initialize(struct cmb_resourceguard *rgp,
                             guard_queue_check);
 
     rgp->guarded_resource = rbp;
+    rgp->on_forwarded_signal = NULL;
     cmi_slist_initialize(&(rgp->observers));
 }
 
@@ -258,7 +259,13 @@ bool cmb_resourceguard_signal(struct cmb_resourceguard *rgp)
                                                          struct observer_tag,
                                                          listhead);
         struct cmb_resourceguard *obs = ot->observer;
-        cmb_resourceguard_signal(obs);
+        if (obs->on_forwarded_signal != NULL) {
+            /* E.g., a condition: evaluates all its waiters, not just the first */
+            (void)(*(obs->on_forwarded_signal))(obs);
+        }
+        else {
+            (void)cmb_resourceguard_signal(obs);
+        }
         ohead = ohead->next;
     }
 
